@@ -73,13 +73,25 @@ func kindOf(t types.Type) Kind {
 
 const maxArrayVal = 64
 
-// sizeOf gives the number of address cells a value of type t occupies.
+// Layout: all leaf fields of a struct live at the struct's own address (each in its own
+// component); nested struct / array fields get sub-addresses base+1.. . A struct with only
+// leaf fields therefore has size 1, and []T of such structs has stride 1.
+func isNestedField(t types.Type) bool {
+	switch t.Underlying().(type) {
+	case *types.Struct, *types.Array:
+		return true
+	}
+	return false
+}
+
 func sizeOf(t types.Type) int64 {
 	switch u := t.Underlying().(type) {
 	case *types.Struct:
 		var n int64 = 1
 		for i := 0; i < u.NumFields(); i++ {
-			n += sizeOf(u.Field(i).Type())
+			if isNestedField(u.Field(i).Type()) {
+				n += sizeOf(u.Field(i).Type())
+			}
 		}
 		return n
 	case *types.Array:
@@ -93,11 +105,35 @@ func sizeOf(t types.Type) int64 {
 }
 
 func fieldOff(st *types.Struct, idx int) int64 {
+	if !isNestedField(st.Field(idx).Type()) {
+		return 0
+	}
 	var n int64 = 1
 	for i := 0; i < idx; i++ {
-		n += sizeOf(st.Field(i).Type())
+		if isNestedField(st.Field(i).Type()) {
+			n += sizeOf(st.Field(i).Type())
+		}
 	}
 	return n
+}
+
+func mulK(k int64, t string) string {
+	if k == 1 {
+		return t
+	}
+	if isLiteral(t) {
+		var n int64
+		fmt.Sscanf(t, "%d", &n)
+		return fmt.Sprintf("%d", k*n)
+	}
+	return fmt.Sprintf("(* %d %s)", k, t)
+}
+
+func elemAddr(ptr string, k int64, idx string) string {
+	if idx == "0" {
+		return ptr
+	}
+	return fmt.Sprintf("(+ %s %s)", ptr, mulK(k, idx))
 }
 
 func typeKey(t types.Type) string {
